@@ -5,3 +5,6 @@ import UxVerif.Model.Edges
 import UxVerif.Lemmas.SortUniq
 import UxVerif.Lemmas.Rows
 import UxVerif.Props.C02
+import UxVerif.Model.Incidence
+import UxVerif.Lemmas.Keyed
+import UxVerif.Props.C03
